@@ -9,6 +9,7 @@ import (
 	"github.com/amzn/ion-go/ion"
 
 	"ionsim/model"
+	"ionsim/ref"
 	"ionsim/sim"
 )
 
@@ -330,6 +331,7 @@ func RunWrite(cfg WriterCfg, ops []WOp, plan sim.WritePlan, record bool) (out *W
 	}
 	arena = append(arena, make([]byte, 32)...)
 	off := 0
+	learned := map[string]int64{}
 	for i = 0; i < len(ops); i++ {
 		var err error
 		if (ops[i].Op == "clob" || ops[i].Op == "blob") && ops[i].V != nil {
@@ -342,7 +344,22 @@ func RunWrite(cfg WriterCfg, ops []WOp, plan sim.WritePlan, record bool) (out *W
 				err = w.WriteBlob(win)
 			}
 		} else {
-			err = Apply(w, ops[i])
+			op := ops[i]
+			if op.Tok == "learned" && op.Sym != nil {
+				// the token a caller would have read back from the bytes emitted so far: same text, plus the local ID that text
+				// has in the symbol context at the end of those bytes
+				x := *op.Sym
+				op.Tok = ""
+				if id, ok := learned[x.Text]; ok {
+					x.SID = id
+					op.Tok = "both"
+				}
+				op.Sym = &x
+			}
+			err = Apply(w, op)
+			if op.Op == "finish" && err == nil && (cfg.Kind == "binary" || cfg.Kind == "binary-lst") {
+				learned = learnSIDs(sink.Accepted, cfg)
+			}
 		}
 		if out.FailOp < 0 && sink.FirstFailCall >= 0 {
 			out.FailOp = i
@@ -352,6 +369,31 @@ func RunWrite(cfg WriterCfg, ops []WOp, plan sim.WritePlan, record bool) (out *W
 		} else {
 			out.Errs = append(out.Errs, "")
 		}
+	}
+	return out
+}
+
+// learnSIDs decodes what a binary Writer has emitted so far with the reference decoder and returns, for every text of the
+// symbol context in force at the end, its lowest local ID (the ID a Reader over those bytes would report for it).
+func learnSIDs(emitted []byte, cfg WriterCfg) map[string]int64 {
+	out := map[string]int64{}
+	res, e := ref.DecodeBinary(emitted, ref.Options{Catalog: &model.Catalog{Tables: cfg.Shared}, KeepContexts: true})
+	if e != nil || res == nil || len(res.Contexts) == 0 {
+		return out
+	}
+	ctx := res.Contexts[len(res.Contexts)-1]
+	id := int64(0)
+	for _, sl := range ctx {
+		n := sl.Run
+		if n < 1 {
+			n = 1
+		}
+		if sl.Known {
+			if _, dup := out[sl.Text]; !dup {
+				out[sl.Text] = id + 1
+			}
+		}
+		id += n
 	}
 	return out
 }
